@@ -1,0 +1,117 @@
+//go:build verif
+
+package p2p
+
+import (
+	"time"
+
+	"github.com/MixinNetwork/mixin/common"
+	"github.com/MixinNetwork/mixin/crypto"
+)
+
+// Verification hooks (build tag verif): thin exported wrappers around the
+// unexported peer message parser / builders, the sync point codec and the
+// QUIC framing, used by the /verif harness (properties C08 and C31).
+
+const VerifAuthenticationMessageSize = authenticationMessageSize
+
+func VerifParseNetworkMessage(version uint8, data []byte) (*PeerMessage, error) {
+	return parseNetworkMessage(version, data)
+}
+
+func VerifMessageUnsigned(m *PeerMessage) []byte             { return m.unsigned }
+func VerifMessageSignature(m *PeerMessage) *crypto.Signature { return m.signature }
+func VerifMessageVersion(m *PeerMessage) byte                { return m.version }
+func VerifParseTransactionsPayload(data []byte) ([]*common.VersionedTransaction, error) {
+	return parseTransactionsPayload(data)
+}
+func VerifBuildTransactionsPayload(txs []*common.VersionedTransaction) []byte {
+	return buildTransactionsPayload(txs)
+}
+
+func VerifBuildAuthenticationMessage(data []byte) []byte { return buildAuthenticationMessage(data) }
+
+func VerifBuildSnapshotAnnouncementMessage(s *common.Snapshot, R, spend crypto.Key) []byte {
+	return buildBatchSnapshotAnnouncementMessage(s, R, spend)
+}
+
+func VerifBuildSnapshotCommitmentMessage(handle SyncHandle, snap crypto.Hash, R crypto.Key, wantTxs []crypto.Hash) []byte {
+	return buildBatchSnapshotCommitmentMessage(handle, snap, R, wantTxs)
+}
+
+func VerifBuildTransactionChallengeMessage(snap crypto.Hash, cosi *crypto.CosiSignature, txs []*common.VersionedTransaction) []byte {
+	return buildBatchTransactionChallengeMessage(snap, cosi, txs)
+}
+
+func VerifBuildFullChallengeMessage(s *common.Snapshot, commitment, challenge *crypto.Key, txs []*common.VersionedTransaction) []byte {
+	return buildBatchFullChallengeMessage(s, commitment, challenge, txs)
+}
+
+func VerifBuildSnapshotResponseMessage(snap crypto.Hash, si *[32]byte) []byte {
+	return buildSnapshotResponseMessage(snap, si)
+}
+
+func VerifBuildSnapshotFinalizationMessage(s *common.Snapshot) []byte {
+	return buildBatchSnapshotFinalizationMessage(s)
+}
+
+func VerifBuildSnapshotConfirmMessage(snap crypto.Hash) []byte {
+	return buildSnapshotConfirmMessage(snap)
+}
+
+func VerifBuildTransactionMessage(ver *common.VersionedTransaction) []byte {
+	return buildTransactionMessage(ver)
+}
+
+func VerifBuildTransactionsMessage(txs []*common.VersionedTransaction, typ byte) []byte {
+	return buildTransactionsMessage(txs, typ)
+}
+
+func VerifBuildTransactionRequestMessage(tx crypto.Hash) []byte {
+	return buildTransactionRequestMessage(tx)
+}
+
+func VerifBuildGraphMessage(handle SyncHandle) []byte { return buildGraphMessage(handle) }
+
+func VerifBuildCommitmentsMessage(handle SyncHandle, commitments []*crypto.Key) []byte {
+	return buildCommitmentsMessage(handle, commitments)
+}
+
+// VerifBuildConsumersMessage runs the real buildConsumersMessage of a relayer
+// whose consumers are the given (id, authentication data) pairs.  The order of
+// the entries follows the neighbor map iteration (random); the result is
+// returned together with the ids in the order they were written.
+func VerifBuildConsumersMessage(me crypto.Hash, ids []crypto.Hash, auths [][]byte) []byte {
+	p := NewPeer(nil, me, "127.0.0.1:0", true)
+	for i, id := range ids {
+		c := NewPeer(nil, id, "127.0.0.1:0", false)
+		c.consumerAuth = &AuthToken{PeerId: id, Timestamp: uint64(time.Now().UnixNano()), Data: auths[i]}
+		p.consumers.Set(id, c)
+	}
+	return p.buildConsumersMessage()
+}
+
+func VerifBuildRelayMessage(me, peerId crypto.Hash, msg []byte) []byte {
+	p := NewPeer(nil, me, "127.0.0.1:0", false)
+	return p.buildRelayMessage(peerId, msg)
+}
+
+func VerifMarshalSyncPoints(points []*SyncPoint) []byte { return marshalSyncPoints(points) }
+
+func VerifUnmarshalSyncPoints(b []byte) ([]*SyncPoint, error) { return unmarshalSyncPoints(b) }
+
+// ---- QUIC framing ---------------------------------------------------------
+
+func VerifRelayerAddr(r *QuicRelayer) string { return r.listener.Addr().String() }
+
+// VerifRawWrite writes bytes to the client's stream without framing, so a test
+// peer can send an arbitrary header.
+func VerifRawWrite(c Client, b []byte) (int, error) {
+	qc := c.(*QuicClient)
+	_ = qc.stream.SetWriteDeadline(time.Now().Add(WriteDeadline))
+	return qc.stream.Write(b)
+}
+
+func VerifReceiveWithLimit(c Client, max uint32) (*TransportMessage, error) {
+	return c.(*QuicClient).receiveWithLimit(max)
+}
